@@ -155,6 +155,9 @@ func c11Entries() []string {
 		".", "domain:", c11L25 + ".com", c11L63 + ".com", `regexp:^a\.`, `regexp:^\\095x\.`, `regexp:^1\.`,
 		"b.com.", "full:.", "y." + c11L25 + ".com", "a\x00.com", "full:", "x.b.com",
 		"\xc3\x89.com", "full:\xff\xfe.com", "\xe2\x84\xaa.com", // non-ASCII octets: only ASCII letters are case-folded
+		// regexp entries whose syntax must stay confined to the entry: a flag group, a pattern that only matches if case folding
+		// leaks into it, an unterminated \Q...
+		`regexp:(?i)^ZZ\.`, `regexp:^C\.`, `regexp:^b\Q.com`,
 	}
 }
 
@@ -164,7 +167,7 @@ func c11Names() [][][]byte {
 		c11L("z", "b", "com"), c11L("x", "b", "com"), c11L("c", "com"), c11L("org"), c11L("a", "org"), nil,
 		c11L(c11L25, "com"), c11L("x", c11L25, "com"), c11L("y", c11L25, "com"), c11L(c11L63, "com"), c11L("z", c11L63, "com"),
 		c11L("a\x00", "com"), c11L("_x", "com"), c11L("\x01", "com"), c11L("1", "com"), c11L("a.b", "com"), c11L("a\\", "com"),
-		c11L("a\x00\x00", "com"), c11L("com\x00"), c11L("a", "com", "a"), c11L("xa", "com"),
+		c11L("a\x00\x00", "com"), c11L("com\x00"), c11L("a", "com", "a"), c11L("xa", "com"), c11L("zz", "net"), c11L("c", "net"), c11L("b", "com|^1\\", "net"),
 		c11L("\xc3\x89", "com"), c11L("\xc3\xa9", "com"), c11L("\xff\xfe", "com"), c11L("\xe2\x84\xaa", "com"), c11L("k", "com"), c11L("\xef\xbf\xbd\xef\xbf\xbd", "com"),
 		c11L(strings.Repeat("p", 63), strings.Repeat("q", 63), strings.Repeat("r", 63), strings.Repeat("s", 57), "com"),
 		c11L(strings.Repeat("p", 63), strings.Repeat("q", 63), strings.Repeat("r", 63), strings.Repeat("s", 57), "org"),
